@@ -78,19 +78,22 @@ template<typename T> static std::string fi_stream(std::istream& is, bool use) {
   return accept([&] { return frequent_items_sketch<T>::deserialize(is); }, fi_readout<T>, fi_use<T>, use);
 }
 
-enum FK { F_EMPTY, F_SINGLE, F_FEW, F_GROWN, F_PURGED };
+enum FK { F_EMPTY, F_SINGLE, F_FEW, F_GROWN, F_PURGED, F_BIGCFG };
 template<typename T> static Bytes fi_image(Rng& r, bool T_, int kind) {
   typedef FiItem<T> I;
   uint8_t lg_max = static_cast<uint8_t>(r.range(3, T_ ? 6 : 5));
   uint8_t lg_start = 3;
   if (kind == F_GROWN) { lg_max = static_cast<uint8_t>(r.range(5, 6)); }
   else if (kind == F_FEW) lg_start = static_cast<uint8_t>(r.range(3, lg_max));
+  // large nominal configuration, tiny content: count fields of the image are then bounded only by the large configured maximum
+  else if (kind == F_BIGCFG) lg_max = static_cast<uint8_t>(r.range(24, 28));
   frequent_items_sketch<T> s(lg_max, lg_start);
   const uint64_t cap = (3ULL << lg_max) / 4;
   const uint64_t off = r.below(20);
   switch (kind) {
     case F_EMPTY: break;
     case F_SINGLE: s.update(I::make(r.below(30)), 1 + r.below(1000)); break;
+    case F_BIGCFG:
     case F_FEW: { const uint64_t m = 2 + r.below(4); for (uint64_t i = 0; i < m; ++i) s.update(I::make(off + i), 1 + r.below(50)); break; }          // below the start capacity (6)
     case F_GROWN: {   // 13 .. cap-1 distinct items: the table grew from 8 to 32 or 64 slots, no purge
       const uint64_t m = 13 + r.below(cap - 13);
@@ -278,7 +281,7 @@ static Bytes bloom_image(Rng& r, bool T_, int kind) {
 // ------------------------------------------------------------------ registration
 std::vector<Target> targets() {
   std::vector<Target> t;
-  struct { const char* name; int k; } fks[] = {{"empty", F_EMPTY}, {"single", F_SINGLE}, {"few", F_FEW}, {"grown", F_GROWN}, {"purged", F_PURGED}};
+  struct { const char* name; int k; } fks[] = {{"empty", F_EMPTY}, {"single", F_SINGLE}, {"few", F_FEW}, {"grown", F_GROWN}, {"purged", F_PURGED}, {"bigcfg_few", F_BIGCFG}};
   struct { const char* name; int k; } cks[] = {{"empty", C_EMPTY}, {"few", C_FEW}, {"many", C_MANY}};
   struct { const char* name; int k; } bks[] = {{"empty", B_EMPTY}, {"few_dirty", B_FEW_DIRTY}, {"few_counted", B_FEW_COUNTED}, {"dense", B_DENSE}};
   std::vector<std::vector<Target>> fam(4);
